@@ -446,6 +446,25 @@ def templates() -> T.List[T.Tuple[str, str, str, T.List[dict]]]:
             out.append(('new-option', kind, proj, [su(), ed(proj, nn, ns), rc(), cf((key_of(proj, nn), nv)), WIPE]))
             out.append(('new-option', kind, proj, [su(), ed(proj, nn, ns), cf((key_of(proj, nn), nv)), rc()]))
 
+    # -- a failure AFTER coredata.dat / cmd_line.txt / the introspection file were written (postconf script), for every
+    #    command kind incl. --wipe and the regeneration after a corrupt coredata.dat; then a command that would reveal
+    #    lost or leaked records
+    CORRUPT = {'op': 'corrupt'}
+    for proj in ('top', 'sub'):
+        for kind, name in PLAIN[proj].items():
+            sp = INIT[proj][name]
+            k = key_of(proj, name)
+            v = next(x for x in valid_values(sp) if x != cl(sp['d']))
+            w = next(x for x in valid_values(sp) if x != v)
+            late = ('boom_late', 'true')
+            ok = ('boom_late', 'false')
+            out.append(('fail-late:wipe', kind, proj, [su((k, v)), cf(late), WIPE, rc(ok), WIPE]))
+            out.append(('fail-late:wipe', kind, proj, [su((k, v)), cf(late, (k, w)), {'op': 'wipe', 'D': []}, su(ok)]))
+            out.append(('fail-late:regenerate', kind, proj, [su((k, v)), cf(late), CORRUPT, rc((k, w)), rc(ok), WIPE]))
+            out.append(('fail-early:regenerate', kind, proj, [su((k, v)), CORRUPT, cf((k, w)), rc((k, w), ('boom', 'true')), rc(), WIPE]))
+            out.append(('regenerate', kind, proj, [su((k, v)), cf((k, w)), CORRUPT, su((k, v)), rc(), WIPE]))
+            out.append(('fail-late:reconfigure', kind, proj, [su((k, v)), rc(late, (k, w)), WIPE]))
+            out.append(('fail-after-dump:reconfigure', kind, proj, [su((k, v)), ed(proj, name, None), rc(('boom_late', 'true')), WIPE]))
     # -- per-subproject override of a builtin option
     out.append(('builtin-override', 'builtin', 'sub', [su(), cf(('sub:warning_level', '3')), cf(('warning_level', '0')), cf(U=['sub:warning_level']), rc()]))
     out.append(('builtin-override', 'builtin', 'sub', [su(('sub:warning_level', '3')), rc(('warning_level', '3')), cf(('warning_level', '0')), WIPE]))
@@ -521,6 +540,8 @@ def e_cmd(c: dict) -> str:
         for k in c.get('U', []):
             args[k] = None
         return 'cf;' + ','.join(f'{e_key(k)}=' + ('-' if v is None else e_val(v)) for k, v in args.items())
+    if op == 'corrupt':
+        return 'co'
     if op == 'edit':
         p = '1' if c['proj'] == 'sub' else '0'
         if c['spec'] is None:
@@ -557,6 +578,8 @@ def obs_string(cmd: dict, ob: dict) -> str:
     c = ob['core']
     if c is None:
         core = '-'
+    elif c.get('corrupt'):
+        core = '!corrupt'
     else:
         core = 'eff:' + jn(f'{k}={v}' for k, v in c['eff'].items()) + ';own:' + jn(f'{k}={v}' for k, v in c['own'].items() if not k.endswith(':' + RUN.BUILTIN)) + \
             ';aug:' + jn(f'{k}={v}' for k, v in c['aug'].items()) + ';yield:' + jn(k for k, v in c['yield'].items() if v) + \
@@ -572,13 +595,14 @@ def persisted(ob: T.Optional[dict]) -> dict:
     if ob is None:
         return {'core': None, 'cmdline': None, 'intro': None}
     c = ob['core']
-    return {'core': None if c is None else (c['eff'], c['aug']), 'cmdline': ob['cmdline'], 'intro': ob['intro']}
+    return {'core': None if c is None else ('corrupt' if c.get('corrupt') else (c['eff'], c['aug'])),
+            'cmdline': ob['cmdline'], 'intro': ob['intro']}
 
 
 def matches(st: REF.State, cmd: dict, ob: dict) -> T.Optional[str]:
     """None when the observation is the state `st`; otherwise the first difference"""
     c = ob['core']
-    if c is None:
+    if c is None or c.get('corrupt'):
         return 'core:absent'
     eff = st.effective()
     for k in sorted(set(eff) | set(c['eff'])):
@@ -686,6 +710,11 @@ def oracle(hist: T.List[dict], obs: T.List[dict], reach: T.Optional[T.Set[str]] 
                 return {'step': i, 'key': 'edit-changed-build-directory', 'what': 'editing the option file changed the build directory'}
             prev = ob
             continue
+        if cmd['op'] == 'corrupt':
+            st = st.copy()
+            st.corrupt = st.configured or st.corrupt
+            prev = ob
+            continue
         cands = REF.candidates(st, files, cmd)
         chosen: T.Optional[REF.State] = None
         okay = False
@@ -729,6 +758,7 @@ def run_batch(ctx: Ctx, hists: T.List[T.List[dict]], label: str, cells: T.Option
     jobs = []
     for i, h in enumerate(hists):
         steps = [j for j, c in enumerate(h) if c['op'] != 'edit']
+        steps = [j for j in steps if h[j]['op'] != 'corrupt']
         isteps = [ctx.rng.choice(steps)] if steps and ctx.rng.random() < 0.5 else []
         jobs.append((i, h, isteps))
     results: T.Dict[int, T.List[dict]] = {}
@@ -762,6 +792,10 @@ def run_batch(ctx: Ctx, hists: T.List[T.List[dict]], label: str, cells: T.Option
         ctx.tag('histories:' + label)
         for c, ob in zip(h, obs):
             ctx.tag(f"cmd:{c['op']}:{ob['rc']}")
+            if ob['rc'] != 'ok':
+                # where the command failed: nothing written / coredata written and taken back
+                ctx.tag(f"fail:{c['op']}:" + ('late' if 'Postconf' in ob.get('err', '') else
+                                              'after-dump' if 'Unknown options' in ob.get('err', '') else 'early'))
             if c['op'] == 'edit':
                 ctx.tag('edit:' + ('remove' if c['spec'] is None else c['spec']['t']))
         ctx.seen_nontrivial(json.dumps(h, sort_keys=True))
